@@ -14,6 +14,11 @@ func dump(args []string) {
 	var specs []*spec.Spec
 	specs = append(specs, univ.CoreSpecs()...)
 	specs = append(specs, univ.Extended(true)...)
+	for _, mu := range univ.Misuses() {
+		for _, pl := range univ.MisusePlacements {
+			specs = append(specs, univ.MisuseSpec(mu, pl, false))
+		}
+	}
 	bins, err := plug.Build("")
 	if err != nil {
 		panic(err)
